@@ -76,10 +76,14 @@ func c02Build(kind string, content map[string][]byte, universe [][]byte, pfx []b
 		}
 		parent = cs
 	}
+	// the prefix slice handed to the store has spare capacity (as one built with append has): an implementation
+	// that appends to it instead of copying would alias its range bounds
+	sp := make([]byte, len(pfx), len(pfx)+16)
+	copy(sp, pfx)
 	if kind == "nested" && len(pfx) >= 2 {
-		view = prefix.NewStore(prefix.NewStore(parent, pfx[:1]), pfx[1:])
+		view = prefix.NewStore(prefix.NewStore(parent, sp[:1]), sp[1:])
 	} else {
-		view = prefix.NewStore(parent, pfx)
+		view = prefix.NewStore(parent, sp)
 	}
 	return
 }
